@@ -490,7 +490,9 @@ Lemma own_wall_utc_midnight : forall a, a mod DAY = 0 -> own_wall utc_zone a 0 =
 Proof.
   intros a H. unfold own_wall. rewrite utc_wall. unfold mk_wall, wall_day.
   rewrite Z.add_0_r. rewrite div_mul_exact by exact H.
-  destruct (wall_to_utc utc_zone a (fold_of utc_zone a) =? a); reflexivity.
+  assert (Hu : forall w f, wall_to_utc utc_zone w f = w).
+  { intros w f. unfold wall_to_utc, wall_offset, offset_at, utc_zone; destruct f; simpl; lia. }
+  rewrite Hu, Z.eqb_refl. reflexivity.
 Qed.
 
 Theorem vevent_roundtrip_recurring_allday : forall x m,
